@@ -39,8 +39,11 @@ def run_one(tape, opts):
     c.max_cleanups = 5
     flavour = tape.choice("config", ("extended", "testtools", "2.7", "stream"), "flavour")
     nruns = tape.weighted("config", [(4, 1), (2, 2), (1, 3)], "history-length")
+    runner = lc.draw_runner(tape)
+    if runner != "plain":
+        c.skip_decorators = False     # what @skip does to setUp/tearDown under the Twisted runners is not in any property
     prog = gen_program(tape, c)
-    sim = lc.simulate(prog, flavour, nruns=nruns)
+    sim = lc.simulate(prog, flavour, nruns=nruns, runner=runner)
     lc.oracle_exec(sim, out)
     m = sim.model
     for r in m.R:
@@ -62,6 +65,7 @@ def run_one(tape, opts):
     out.steps = sum(len(rr.exec_log) for rr in sim.runs)
     out.sim_time = float(out.steps)
     out.hhash = lc.history_hash(sim)
+    out.probe("runner:" + runner)
     if opts.get("want_sample"):
         out.sample = lc.sample_of(sim)
     return out
